@@ -149,6 +149,83 @@ func Check(prop, tier string) int {
 	if ran == 0 {
 		common.Infra("no case ran")
 	}
+	// C17, C18: fault-point enumeration — for sampled invocations, every I/O call x every fault kind
+	if prop == "C17" || prop == "C18" {
+		nb := 3
+		if tier == "thorough" {
+			nb = 60
+		}
+		nb = common.CasesOverride(nb)
+		type bres struct {
+			b     *EnumBase
+			cases []*Case
+			infra string
+		}
+		bases := common.ParallelMap(nb, common.Workers(), func(i int) bres {
+			if deadline.Passed() {
+				return bres{}
+			}
+			eb := GenEnumBase(common.Rng(seed^0xe9f3, i))
+			dir := filepath.Join(scratch, fmt.Sprintf("b%d", i))
+			os.MkdirAll(dir, 0777)
+			defer os.RemoveAll(dir)
+			out := e.RunCase(eb.Case, dir)
+			if out.Infra != "" {
+				return bres{b: eb, infra: out.Infra}
+			}
+			return bres{b: eb, cases: eb.Derive(out.Traces[eb.At], out.AppDir)}
+		})
+		var derived []*Case
+		var owner []int
+		for i, br := range bases {
+			if br.b == nil {
+				continue
+			}
+			if br.infra != "" {
+				writeEvidence(e, prop, tier, seed, start, ran, steps, samples, 0, "infrastructure trouble: "+br.infra)
+				common.Infra("enumeration base %d: %s", i, br.infra)
+			}
+			e.Stats.Counts.Add("enum_base_invocations", 1)
+			e.Stats.Counts.Add("enum_fault_points", len(br.cases))
+			if i == 0 {
+				var ss []string
+				for _, st := range br.b.Case.Steps {
+					ss = append(ss, st.String())
+				}
+				samples = append(samples, map[string]interface{}{"fault_point_enumeration_base": i, "history": ss, "command_under_enumeration": br.b.Case.Steps[br.b.At].String(), "fault_points": len(br.cases)})
+			}
+			for _, c := range br.cases {
+				derived = append(derived, c)
+				owner = append(owner, i)
+			}
+		}
+		dres := common.ParallelMap(len(derived), common.Workers(), func(i int) result {
+			if deadline.Passed() {
+				return result{}
+			}
+			dir := filepath.Join(scratch, fmt.Sprintf("d%d", i))
+			os.MkdirAll(dir, 0777)
+			defer os.RemoveAll(dir)
+			return result{derived[i], e.RunCase(derived[i], dir)}
+		})
+		for i, r := range dres {
+			if r.c == nil {
+				e.Stats.Counts.Add("enum_fault_points_not_run_budget", 1)
+				continue
+			}
+			if r.out.Infra != "" {
+				writeEvidence(e, prop, tier, seed, start, ran, steps, samples, 0, "infrastructure trouble: "+r.out.Infra)
+				common.Infra("enumerated fault case %d (base %d): %s", i, owner[i], r.out.Infra)
+			}
+			ran++
+			steps += r.out.Steps
+			for _, v := range r.out.Verdicts {
+				if v.Property == prop {
+					found = append(found, common.Found{Verdict: v, Index: 400000 + i, Case: r.c, Trace: r.out.Log})
+				}
+			}
+		}
+	}
 	// C18: histories over evolving GENERATED modules (rich, realistic stale outputs)
 	if prop == "C18" {
 		ne := 30
@@ -368,7 +445,7 @@ func writeEvidence(e *Engine, prop, tier string, seed uint64, start time.Time, r
 	cov := map[string]interface{}{
 		"evaluations":         cmds,
 		"distinct_nontrivial": e.Stats.States.Len(),
-		"rule": "cases are seeded histories (6-20 steps: switch variant / delete output / corrupt output / gen|diff|check|show with options, I/O faults and an iteration schedule) over a 3-5 package module; evaluations = wire processes executed (incl. the fault-free reference run on a pristine tree per command and the gen-again/diff follow-ups); distinct_nontrivial = distinct triples (abstract tree state = per package variant + how each left-over output got its content + targeted or not, command, faults that actually fired), which excludes nothing trivial by construction since every triple contains a command execution judged by the model",
+		"rule": "cases are seeded histories (6-20 steps: switch variant / delete output / corrupt output / gen|diff|check|show with options, I/O faults and an iteration schedule) over a 3-5 package module; evaluations = wire processes executed (incl. the fault-free reference run on a pristine tree per command and the gen-again/diff follow-ups); distinct_nontrivial = distinct triples (abstract tree state = per package variant + how each left-over output got its content + targeted or not, command, faults that actually fired), which excludes nothing trivial by construction since every triple contains a command execution judged by the model" + enumRule(prop),
 		"samples":             samples,
 		"histories":           ran,
 		"steps":               steps,
@@ -438,4 +515,11 @@ func Replay(r *common.Replay) int {
 	}
 	fmt.Printf("not reproduced: clause %s of %s holds on this tree\n", r.Verdict.Key(), r.Property)
 	return common.ExitOK
+}
+
+func enumRule(prop string) string {
+	if prop == "C17" || prop == "C18" {
+		return "; plus the fault-point enumeration phase: for each sampled invocation (reach_probes.enum_base_invocations) the command is run fault-free, every I/O seam call of its trace is listed and the history is re-executed once per (I/O call, fault kind) (reach_probes.enum_fault_points), each closed by one fault-free gen with gen-again/diff follow-ups"
+	}
+	return ""
 }
